@@ -360,8 +360,8 @@ pub fn run(ctx: &Ctx) -> Report {
         "Generated XML documents (AST of elements with prefix/local from small pools, xmlns / xmlns:p declarations with URIs from {u1,u2,\"\",XML,XMLNS}, shadowing and un-declaration, attributes in random order incl. same expanded name under different prefixes, a unique _id attribute per element; start/end/empty/short end tags, missing and mismatched end tags; text, comments, PIs, CDATA, references) are parsed into ModelDom. Oracle: each output element is mapped to its source tag through _id; the expected namespace of the element and of each attribute is the resolution of its prefix through the declarations on its own source tag, then on the source tags of its ACTUAL tree ancestors (innermost first), then the fixed xml/xmlns bindings; default namespace for unprefixed elements only; unprefixed attributes none; empty declarations un-bind; declaring xml/xmlns or the xmlns URI has no effect; the attribute list must be the source tag's non-declaration attributes minus those whose expanded name equals an earlier one's. Because the chain is taken from the output tree the oracle is valid under any error recovery and enforces 'visible to descendants only'. Plus an enumerated two-level family (8 parent declaration shapes x 8 child declaration shapes x 3 child prefixes x 6 child tag kinds x 4 attribute lists x 3 sibling prefixes). Elements/attributes with an unbound prefix are not asserted (counted). Non-trivial: a binding is shadowed or un-declared on a nested element, or an element follows a sibling that declared a binding for its prefix; distinct by document text.",
     );
     rep.assume("namespace declarations themselves (xmlns, xmlns:p) are not 'attributes' in the sense of the attribute-loss clause: xml5ever consumes them");
-    report_known(ctx, &mut rep, &|v| replay(ctx, v));
-    run_regressions(ctx, &mut rep, &|v| replay(ctx, v));
+    report_known(ctx, &mut rep, &|v| replay(&ctx.strict_clone(), v));
+    run_regressions(ctx, &mut rep, &|v| replay(&ctx.strict_clone(), v));
     let fam = family();
     let out = run_exhaustive(fam.len() as u64, |i, st| {
         let d = &fam[i as usize];
